@@ -598,7 +598,7 @@ def savedfree_rule(P, R):
     (set_and_run for reaction steps, initial_solutions) without passing print_all / punch_all - otherwise the saved value
     depends on whether an output sink is switched on (density_x before 878bdb55: calc_dens only from print_totals)."""
     from ..callgraph import CallGraph
-    R.rule("C09.savedfree", "a value that xsolution_save / xgas_save stores and that printing code recomputes is recomputed on the print-free calculation path as well", minimum=3)
+    R.rule("C09.savedfree", "a value that xsolution_save / xgas_save stores and that printing code recomputes is recomputed on the print-free calculation path as well", minimum=5)
     cg = CallGraph(P)
     f = P.one("Phreeqc::xsolution_save")
     mems = []
@@ -711,6 +711,32 @@ def savedfree_rule(P, R):
         else:
             R.violation("C09.savedfree", "p_soln_x:xgas_save", why + " (%s): the saved partial pressure depends on the output switches" % ", ".join(sorted(set(resetters))),
                         file=g["file"], line=g["line"], function=g["q"])
+    # entity members that reporting functions (print_* / punch_*) set on the entity in use: the saver of that kind must set them too,
+    # otherwise the saved entity carries them only when something was printed or punched
+    import re as _re
+    SAVER = {"cxxGasPhase": "Phreeqc::xgas_save", "cxxSolution": "Phreeqc::xsolution_save", "cxxExchange": "Phreeqc::xexchange_save",
+             "cxxSurface": "Phreeqc::xsurface_save", "cxxPPassemblage": "Phreeqc::xpp_assemblage_save", "cxxSSassemblage": "Phreeqc::xss_assemblage_save"}
+    setters = {}
+    for g in P.functions.values():
+        nm = g["q"].split("::")[-1]
+        if not (g["q"].startswith("Phreeqc::") and (nm.startswith("print_") or nm.startswith("punch_"))) or nm == "print_punch":
+            continue
+        for c in T.calls(g["body"]):
+            q_ = T.callee_q(c) or ""
+            mm = _re.match(r"(cxx\w+)::(Set_\w+)$", q_)
+            if mm and mm.group(1) in SAVER:
+                o = T.strip_casts(T.call_obj(c)) if T.call_obj(c) is not None else None
+                if T.is_node(o) and o[0] == "Ref" and o[2] == "local" and not str(o[4]).rstrip().endswith("*"):
+                    continue        # a local copy
+                setters.setdefault((mm.group(1), mm.group(2)), set()).add(nm)
+    for (cls, st_), who in sorted(setters.items()):
+        sv = P.one(SAVER[cls])
+        inst = "%s:%s" % (st_, SAVER[cls].split("::")[-1])
+        if any((T.callee_q(c) or "") == cls + "::" + st_ for c in T.calls(sv["body"])):
+            R.ok("C09.savedfree", inst, "%s also calls %s (reporting code: %s)" % (SAVER[cls].split("::")[-1], st_, ", ".join(sorted(who))))
+        else:
+            R.violation("C09.savedfree", inst, "%s::%s is called on the entity in use by reporting code only (%s); %s stores the entity without it: the saved value depends on "
+                        "whether something was printed or punched" % (cls, st_, ", ".join(sorted(who)), SAVER[cls].split("::")[-1]), file=sv["file"], line=sv["line"], function=sv["q"])
     for m in mems:
         wp = W.get(m, set()) & inprint
         if not wp:
